@@ -3,7 +3,7 @@
    and nat stay the extracted inductive types (no 63-bit overflow). *)
 Require Extraction.
 Require Import ExtrOcamlBasic.
-From Gopar Require Import Model.Base Model.GF16 Model.Kernels Model.Matrix Model.RS16.
+From Gopar Require Import Model.Base Model.GF16 Model.Kernels Model.Matrix Model.RS16 Model.Parallel.
 Extraction Language OCaml.
 Set Extraction Optimize.
 Extraction "model.ml"
@@ -11,4 +11,5 @@ Extraction "model.ml"
   Poly64_Times Poly64_Div Poly64_Times_spec Poly64_Div_check tables_init the_tables T_Times T_Inverse T_Div T_Pow
   kernel kspec_fast kern_scalar_asm_with asm_count_legacy
   RowReduce16 Inverse16 Times16 Times16_checked mmul16
-  new_coder gen_parity reconstruct erase all_generators.
+  new_coder gen_parity reconstruct erase all_generators
+  apply_matrix par_params chunks.
